@@ -263,10 +263,11 @@ pub fn run(args: &[String]) {
                             }
                             let ij = ijv.to_string();
                             let mut s = Cursor::new(ibytes.clone());
-                            // every fourth signed ingredient comes in through a Reader: a scratch carrier manifest takes the asset as its
+                            // every fourth signed ingredient of a version-2 claim (always when the history says via = reader) comes in
+                            // through a Reader: a scratch carrier manifest takes the asset as its
                             // ingredient from the stream, and the new builder takes over that recorded ingredient (with its manifest chain,
                             // resolved from the carrier's store) with add_ingredient_from_reader
-                            let via_reader = *a > 0 && ijv.get("validation_results").is_none() && (o["via"] == "reader" || ((o["via"].is_null() || o["via"] == "any") && (vid + 3 * k + oi) % 4 == 1));
+                            let via_reader = *a > 0 && ijv.get("validation_results").is_none() && (o["via"] == "reader" || ((o["via"].is_null() || o["via"] == "any") && !claim_v1 && (vid + 3 * k + oi) % 4 == 1));
                             let r = if via_reader {
                                 (|| -> c2pa::Result<()> {
                                     let mut cb = Builder::from_context(ctx(&sj)).with_definition(simple_manifest_json("carrier", "image/jpeg").to_string().as_str())?;
